@@ -30,11 +30,33 @@ def build(e, cfg, tag=""):
     mx = cfg.get("maxdelay", 3 * dt)
     if kind == "dense":
         conn = neural.LinearDense((2,), (2,), dt, synapse=syn, delay=mx, batch_size=B)
+    elif kind == "conv":
+        H, W, kh, kw, Fn = cfg["geom"]
+        conn = neural.Conv2D(H, W, 1, Fn, dt, (kh, kw), synapse=syn, delay=mx, batch_size=B)
     else:
         conn = neural.LinearDirect((2,), dt, synapse=syn, delay=mx, batch_size=B)
     conn.updater = conn.defaultupdater()
-    neuron = scripted_neuron_class()((2,), dt, B)
+    neuron = scripted_neuron_class()(tuple(conn.outshape), dt, B)
     return neural.Serial(conn, neuron), conn, neuron
+
+
+def shapes(cfg):
+    """(input shape, output shape) of the cell."""
+    if cfg["cell"] != "conv":
+        return (2,), (2,)
+    H, W, kh, kw, Fn = cfg["geom"]
+    return (1, H, W), (Fn, H - kh + 1, W - kw + 1)
+
+
+def geometry(cfg):
+    """parameter index -> synapses sharing it: list of (post-neuron index, input index)."""
+    kind = cfg["cell"]
+    if kind == "dense":
+        return {(o, i): [((o,), (i,))] for o in range(2) for i in range(2)}
+    if kind == "direct":
+        return {(i,): [((i,), (i,))] for i in range(2)}
+    H, W, kh, kw, Fn = cfg["geom"]
+    return {(f, 0, a, b): [((f, oy, ox), (0, oy + a, ox + b)) for oy in range(H - kh + 1) for ox in range(W - kw + 1)] for f in range(Fn) for a in range(kh) for b in range(kw)}
 
 
 def make_trainer(variant, lr_pos, lr_neg, red):
@@ -92,22 +114,23 @@ def run(e, cfg, variant, layer, conn, neuron, inputs, delays, signals=None, chec
     tr.register_cell("c", layer.cell)
     for_delay = param == "delay"
     kd = K(dt)
-    pairs = [(o, i) for o in range(2) for i in range(2)] if kind == "dense" else [(i, i) for i in range(2)]
+    geo = geometry(cfg)
+    ishape, oshape = shapes(cfg)
     wshape = tuple(getattr(conn, param).shape)
-    el_pre = {(b, i): NAN for b in range(B) for i in range(2)}
-    el_post = {(b, o): NAN for b in range(B) for o in range(2)}
+    el_pre = {(b, *i): NAN for b in range(B) for i in np.ndindex(*ishape)}
+    el_post = {(b, *o): NAN for b in range(B) for o in np.ndindex(*oshape)}
     out = []
     for t, (x, y) in enumerate(inputs):
         if delays[t] is not None:
             conn.delay = delays[t]
         da = e.read(conn.delay)
         neuron.script.append(y)
-        layer(x)
+        layer(x.float() if kind == "conv" else x)
         xa, ya = e.read(x), e.read(y)
-        for b in range(B):
-            for i in range(2):
-                el_pre[b, i] = stepfold(el_pre[b, i], xa[b, i], kd)
-                el_post[b, i] = stepfold(el_post[b, i], ya[b, i], kd)
+        for k in el_pre:
+            el_pre[k] = stepfold(el_pre[k], xa[k], kd)
+        for k in el_post:
+            el_post[k] = stepfold(el_post[k], ya[k], kd)
         sig = None
         if variant in ("da-mstdp", "da-mstdpd"):
             sig = signals[t]
@@ -118,10 +141,13 @@ def run(e, cfg, variant, layer, conn, neuron, inputs, delays, signals=None, chec
         gp, gn = acc.pos, acc.neg
         exp_pos, exp_neg = np.empty(wshape, dtype=object), np.empty(wshape, dtype=object)
         has_pos = has_neg = False
-        for (o, i) in pairs:
-            idx = (o, i) if kind == "dense" else (i,)
+        for idx, members in geo.items():
             d = da[idx]
-            terms = [signed_terms(el_pre[b, i], el_post[b, o], d, lr_pos, lr_neg, for_delay) for b in range(B)]
+            terms = []
+            for b in range(B):
+                # a shared (convolutional) parameter sums the per-location terms; a location where either side has not spiked contributes nothing
+                per = [signed_terms(el_pre[(b, *pi)], el_post[(b, *po)], d, lr_pos, lr_neg, for_delay) for (po, pi) in members]
+                terms.append((sum_([c for c, _ in per]), sum_([a for _, a in per])))
             lr_c, lr_a = (lr_pos, lr_neg) if not for_delay else (lr_neg, lr_pos)
             pp, nn = [], []
             if sig is None:
@@ -186,7 +212,8 @@ def sum_bool(vals):
 
 def history(e, cfg, tag=""):
     B, Tn = cfg["B"], cfg["T"]
-    return [(e.sym((B, 2), torch.bool, f"pre{tag}{t}", ind=True), e.sym((B, 2), torch.bool, f"post{tag}{t}", ind=True)) for t in range(Tn)]
+    ishape, oshape = shapes(cfg)
+    return [(e.sym((B, *ishape), torch.bool, f"pre{tag}{t}", ind=True), e.sym((B, *oshape), torch.bool, f"post{tag}{t}", ind=True)) for t in range(Tn)]
 
 
 def delays_for(e, cfg, conn, changing):
@@ -263,6 +290,16 @@ def checks(tier):
                         for B, red in (((1, "sum"), (2, "mean"), (2, "sum")) if th else ((2, "mean") if sg != "tensor" else (1, "sum"),)):
                             for dt in ((1.0, 1.3) if th else (1.3,)):
                                 form.append(dict(variant=variant, signs=signs, cell=cell, delays=delays, signal=sg, B=B, reduction=red, dt=dt, T=(Tn if sg != "tensor" or B == 1 else 2)))
+    # convolutional cells: a parameter is shared by every output location (receptive dimension > 1), locations that have not spiked yet contribute nothing
+    for variant in ("da-stdp", "da-stdpd", "da-kernel", "da-kerneld", "da-mstdp", "da-mstdpd"):
+        for signs in (tuple(SIGNS) if th else ("hebbian", "antihebbian")):
+            for geom in (((2, 2, 1, 2, 1), (2, 3, 1, 2, 2)) if th else ((2, 2, 1, 2, 1),)):
+                for delays in (("symbolic", "zero") if th else ("symbolic",)):
+                    for B, red in (((1, "sum"), (2, "mean")) if th else ((1, "sum"),)):
+                        form.append(dict(variant=variant, signs=signs, cell="conv", geom=geom, delays=delays, signal=("scalar-" if "mstdp" in variant else "-"), B=B, reduction=red, dt=1.3, T=3))
+    for pair in (("da-stdp", "da-kernel"), ("da-stdpd", "da-kerneld")):
+        for signs in (tuple(SIGNS) if th else ("hebbian",)):
+            agree.append(dict(pair=pair, signs=signs, cell="conv", geom=(2, 2, 1, 2, 1), delays="symbolic", B=1, reduction="sum", dt=1.3, T=3))
     for pair in (("da-stdp", "da-kernel"), ("da-stdpd", "da-kerneld"), ("da-stdp", "kernel")):
         for signs in SIGNS:
             for cell in (("dense", "direct") if th else ("dense",)):
@@ -274,9 +311,9 @@ def checks(tier):
 
 BOUNDS = {
     "quick": {"variants": ["DelayAdjustedSTDP", "DelayAdjustedSTDPD", "DelayAdjustedKernelSTDP", "DelayAdjustedKernelSTDPD", "DelayAdjustedMSTDP", "DelayAdjustedMSTDPD", "KernelSTDP"],
-              "T": 3, "cells": ["dense 2x2", "direct 2"], "delays": "symbolic reals in [0, 3dt] per synapse, re-assigned each step for the delay-learning variants; or all zero",
+              "T": 3, "cells": ["dense 2x2", "direct 2", "Conv2D 2x2 input / 1x2 kernel / 1 filter (2 output locations per weight)"], "delays": "symbolic reals in [0, 3dt] per synapse, re-assigned each step for the delay-learning variants; or all zero",
               "sign modes": 4, "batch": [1, 2], "signal": "scalar +/-, per-sample symbolic"},
     "thorough": {"T": 4, "dt": [1.0, 1.3], "reductions": ["sum", "mean"]},
 }
-OUTSIDE = ["exp is uninterpreted with instantiated monotonicity/product axioms; identical terms on both sides for the formula checks", "conv and lateral cells",
+OUTSIDE = ["exp is uninterpreted with instantiated monotonicity/product axioms; identical terms on both sides for the formula checks", "lateral cells; conv cells beyond 2x3 input / 2 filters",
            "event-time fold is the documented recursion (its closed form is property C07)"]
